@@ -10,7 +10,10 @@ prop = [json.loads(l) for l in open(here + "/properties.jsonl") if json.loads(l)
 have = []
 for d in sorted(glob.glob(here + "/seeded/%s-*" % P)):
     try:
-        have.append(open(d + "/notes.txt").read().strip().splitlines()[0][:220])
+        ls = [l.strip() for l in open(d + "/notes.txt").read().strip().splitlines() if l.strip() and not set(l.strip()) <= set("=-")]
+        # first line, plus the next two when the first does not say what was changed
+        t = ls[0] if len(ls[0]) > 60 and "demo:" not in ls[0] else " | ".join(ls[:4])
+        have.append(t[:420])
     except OSError:
         pass
 nums = ", ".join(str(FIRST + i) for i in range(COUNT))
